@@ -42,6 +42,8 @@ def tasks(tier):
     for kind in (0, 1, 2):
         for second in (0, 1):
             ts.append(Task('verifHarness_C14_backoff_terminated', [kind, second]))
+    for udp in (0, 1):
+        ts.append(Task('verifHarness_C14_connect_terminated', [udp, 0]))
     for busy in (0, 1, 2, 3):
         ts.append(Task('verifHarness_C14_read_failure', [busy], {'x25_uf': True}))
     for one in (0, 1):
@@ -53,7 +55,7 @@ def tasks(tier):
 
 
 def required_reach(tier):
-    return ['C14/T1', 'C14/T2s', 'C14/T2c', 'C14/T3', 'C14/T4', 'C14/L2', 'C14/T2t', 'C14/T2b', 'C14/T1p', 'C14/T5', 'C10/C']
+    return ['C14/T1', 'C14/T2s', 'C14/T2c', 'C14/T3', 'C14/T4', 'C14/L2', 'C14/T2t', 'C14/T2b', 'C14/T1p', 'C14/T5', 'C10/C', 'C14/T2c']
 
 
 def bounds(tier):
@@ -62,6 +64,7 @@ def bounds(tier):
             'T1_outcome': 'Read and Write of the wrapper return the wrapped call\'s byte count (0..8, symbolic) and error unchanged: nil, a generic error, os.ErrDeadlineExceeded, a wrapped os.ErrDeadlineExceeded',
             'T2_reconnect': 'serial, TCP client and UDP client provide(): 0..3 consecutive failed attempts then a success, first and later '
                             'provide() calls; timers are treated as fired and their durations logged; closed endpoint',
+            'T2_connect_close': 'TCP / UDP client whose connection attempt gets no answer: closing the endpoint ends provide() with errTerminated (one schedule)',
             'T2_backoff_close': 'serial / TCP client / UDP client provide() with every attempt failing and reconnect timers that have not elapsed: closing the endpoint ends provide() with errTerminated (one schedule)',
             'T5_broadcast': 'UDP broadcast connection wrapper: one Read / Write, write timeout and clock symbolic, byte count 0..8, error or not, failing SetWriteDeadline',
             'T4_server': 'TCP and UDP server provide(): two accepted peers then an accept error; idle, write and read timeouts symbolic', 'T2_long_outage': 'TCP client with 5, 6 and 8 failed attempts (virtual time: the reconnect waits add up past the 10 s connect timeout)',
